@@ -94,7 +94,8 @@ static int in_window;
 static double vclock; /* seconds since VBASE */
 static double quantum = Q0;
 static int forced_rounds;
-static long rem[4];
+static long rem[5];
+static int must_switch, cp_switching;
 static uint64_t ticket_ctr;
 static double cands[32];
 static int ncands;
@@ -403,7 +404,7 @@ static uint64_t fingerprint(void)
         f = abtmc_mix(f, T[i].h);
         f = abtmc_mix(f, (uint64_t)T[i].st * 16 + T[i].wk);
     }
-    f = abtmc_mix(f, cur);
+    f = abtmc_mix(f, cur * 2 + cp_switching);
     uint64_t vb;
     memcpy(&vb, &vclock, 8);
     f = abtmc_mix(f, vb);
@@ -448,6 +449,24 @@ static int cache_check(uint64_t fp)
     return 0; /* table crowded: do not cache */
 }
 
+static int can_afford(int kind)
+{
+    if (kind == ABTMC_B_FREE)
+        return 1;
+    if (kind == ABTMC_B_PT)
+        return rem[ABTMC_B_P] > 0 && rem[ABTMC_B_T] > 0;
+    return rem[kind] > 0;
+}
+static void charge(int kind)
+{
+    if (kind == ABTMC_B_PT) {
+        rem[ABTMC_B_P]--;
+        rem[ABTMC_B_T]--;
+    } else if (kind != ABTMC_B_FREE) {
+        rem[kind]--;
+    }
+}
+
 /* record a choice point with nalt alternatives; returns the alternative */
 static int choice_point(int type, int nalt, const uint8_t *altkind)
 {
@@ -455,11 +474,11 @@ static int choice_point(int type, int nalt, const uint8_t *altkind)
     /* is any non-default alternative affordable? */
     int affordable = 0;
     for (int i = 1; i < nalt; i++)
-        if (altkind[i] == ABTMC_B_FREE || rem[altkind[i]] > 0)
+        if (can_afford(altkind[i]))
             affordable = 1;
     if (!affordable) {
         for (int i = 1; i < nalt; i++)
-            if (altkind[i] == ABTMC_B_P)
+            if (altkind[i] == ABTMC_B_P || altkind[i] == ABTMC_B_PT)
                 xr->skipped_p = 1;
         return 0;
     }
@@ -484,12 +503,9 @@ static int choice_point(int type, int nalt, const uint8_t *altkind)
             ENGINE_FATAL("replay divergence: cp %u has %d alternatives, "
                          "deviation wants %d",
                          idx, nalt, alt);
-        if (altkind[alt] != ABTMC_B_FREE) {
-            if (rem[altkind[alt]] <= 0)
-                ENGINE_FATAL("replay divergence: budget exhausted at cp %u",
-                             idx);
-            rem[altkind[alt]]--;
-        }
+        if (!can_afford(altkind[alt]))
+            ENGINE_FATAL("replay divergence: budget exhausted at cp %u", idx);
+        charge(altkind[alt]);
     } else if (next_dev < abtmc_g.ndev && abtmc_g.dev[next_dev].idx < idx) {
         ENGINE_FATAL("replay divergence: deviation cp %u skipped (now %u)",
                      abtmc_g.dev[next_dev].idx, idx);
@@ -525,11 +541,24 @@ static void schedule(void)
     for (;;) {
         int en[ABTMC_MAXT], n = 0;
         int cur_en = enabled(&T[cur]);
-        if (cur_en)
-            en[n++] = cur;
-        for (int i = 0; i < nthr; i++)
-            if (i != cur && enabled(&T[i]))
-                en[n++] = i;
+        int switching = 0;
+        if (must_switch) {
+            /* a timer was fired together with a preemption: somebody else runs */
+            for (int i = 0; i < nthr; i++)
+                if (i != cur && enabled(&T[i]))
+                    en[n++] = i;
+            must_switch = 0;
+            if (n > 0)
+                switching = 1;
+        }
+        if (!switching) {
+            n = 0;
+            if (cur_en)
+                en[n++] = cur;
+            for (int i = 0; i < nthr; i++)
+                if (i != cur && enabled(&T[i]))
+                    en[n++] = i;
+        }
         if (n == 0) {
             if (T[0].st == ST_FIN)
                 return; /* cannot happen: thread 0 ends the process */
@@ -546,22 +575,37 @@ static void schedule(void)
             int nalt = n;
             ak[0] = ABTMC_B_FREE;
             for (int i = 1; i < n; i++)
-                ak[i] = cur_en ? ABTMC_B_P : ABTMC_B_FREE;
+                ak[i] = (cur_en && !switching) ? ABTMC_B_P : ABTMC_B_FREE;
             int ts = 0;
             double target = -1;
-            if (rem[ABTMC_B_T] > 0) {
+            int tkind = 0;
+            if (rem[ABTMC_B_T] > 0 && !switching) {
                 target = next_time_target(&ts);
-                if (ts && target >= 0)
-                    ak[nalt++] = ABTMC_B_T;
+                if (ts && target >= 0) {
+                    /* Firing a timer only matters right before a context
+                     * switch or before the running thread reads the clock:
+                     * "advance, then keep running" equals advancing later. */
+                    if (!cur_en || T[cur].pkind == K_CLOCK)
+                        tkind = ABTMC_B_T;
+                    else if (nthr > 1)
+                        tkind = ABTMC_B_PT;
+                    if (tkind)
+                        ak[nalt++] = (uint8_t)tkind;
+                }
             }
+            cp_switching = switching;
             if (nalt > 1)
                 alt = choice_point(0, nalt, ak);
+            cp_switching = 0;
             abtmc_g.xr->nsteps++;
             if (alt >= n) {
                 /* fire the timer: advance virtual time, decide again */
                 vclock = target + 1.0e-6;
+                if (tkind == ABTMC_B_PT)
+                    must_switch = 1;
                 if (abtmc_g.trace)
-                    fprintf(stderr, "[sched] time -> +%.6f\n", vclock);
+                    fprintf(stderr, "[sched] time -> +%.6f%s\n", vclock,
+                            must_switch ? " (and switch)" : "");
                 continue;
             }
         }
@@ -1482,6 +1526,10 @@ long abtmc_syscall(long nr, long a1, long a2, long a3, long a4, long a5,
 static void clock_read(void)
 {
     cthr *t = self();
+    count_op();
+    t->pkind = K_CLOCK;
+    t->wk = W_NONE;
+    schedule();
     uint64_t vb;
     memcpy(&vb, &vclock, 8);
     log_access(t, &vclock, 8, vb, vb, 0, 1);
@@ -1676,8 +1724,9 @@ void abtmc_rt_begin(void)
     nthr = 0;
     cur = 0;
     vclock = 0;
-    for (int k = 0; k < 4; k++)
+    for (int k = 0; k < 5; k++)
         rem[k] = abtmc_g.bound[k];
+    must_switch = 0;
     next_dev = 0;
     cthr *t = new_thread();
     t->pt = pthread_self();
